@@ -46,7 +46,14 @@ ROWS = [
     (20, 'EFloat', ['-w', '10,0,-5,0,0,5,0,0.001', '--phi=0,0,1', '--theta=0,10,3', '--ff-distance=1e-300', '--ff-power=1e300', '--option=far-field-absolute']),
     (12, 'EValue', W + ['--laplace-load-a=' + ','.join(['1'] * 60), '--laplace-load-b=1', '--attach-load=1,all']),
     (0, None, W + ['--frequency-steps=' + '9' * 400, '--frequency-increment=1']),
+    # a downward sweep that reaches 0 MHz or goes below it, an upward one that leaves the accepted range
+    (0, None, W + ['-f', '7', '--frequency-increment=-3.5', '--frequency-steps=3']),
+    (0, None, W + ['-f', '7', '--frequency-increment=-2', '--frequency-steps=5']),
+    (0, None, W + ['-f', '1e149', '--frequency-increment=9e149', '--frequency-steps=2']),
     (18, 'EOs', W + ['--output-cmdline=/nonexistent-dir/x.pym']),
+    # the output path is a directory / lies below a regular file: other members of the OSError family
+    (18, 'EOs', W + ['--output-cmdline=/']), (18, 'EOs', W + ['--output-cmdline=/etc/hostname/x.pym']),
+    (18, 'EOs', W + ['--output-basic-input=/']), (18, 'EOs', W + ['--output-cmdline=' + 'x' * 5000]),
     (18, 'ENotImpl', W + ['--load=5', '--rlc-load=1,1e-6,', '--attach-load=1,1', '--attach-load=2,2', '--output-basic-input=/nonexistent-dir/x.mini']),
     (18, 'ENotImpl', W + ['--load=5', '--rlc-load=1,1e-6,', '--attach-load=2,2', '--attach-load=1,1', '--output-basic-input=/nonexistent-dir/x.mini']),
     (18, 'ENotImpl', W + ['--rlc-load=1,1e-6,', '--attach-load=1,2', '--skin-effect-conductivity=1e6', '--output-basic-input=/nonexistent-dir/x.mini']),
